@@ -23,7 +23,7 @@ from builders import c12_loopcheck, c12_loops as L
 from builders import c12_xmlcheck as XC
 from builders.c12_trace import Probe, StepLimit, Tracer
 
-GEN = ["Loops", "C12Consts", "C12Xml"]
+GEN = ["Loops", "C12Consts", "C12Xml", "PyLoops", "Aes", "PyAes"]
 RULE = ("loops: per modelled loop a structured stream (BIFF records, JPEG segments, PPT record trees, BLIP records, DIB headers, "
         "PNG chunk chains, RTF token soup, 7z header properties) + a malformed stream over marker-rich alphabets + fixed "
         "adversarial cases (zero-length records, maximal lengths, markers at the last offsets); limits: sizes limit-1/limit/limit+1 "
